@@ -130,6 +130,16 @@ let with_crc r (c : control) : control * string =
   | 0 -> ({ c with c_crc = zz (ZA.logxor good (pow2 (rint r 32))) }, "crcflip")
   | 1 -> ({ c with c_crc = g_u r 32 }, "crcrand")
   | 2 -> ({ c with c_crc = zz (ZA.logxor good (ZA.of_string "4294967295")) }, "crcinv")
+  | 3 -> (* near misses of the right value: its four bytes in reversed order (seeded change C16-6: big-endian fallback), its two
+            halves swapped, rotated by one byte, off by one *)
+    let b i = ZA.logand (ZA.shift_right good (8 * i)) (ZA.of_int 255) in
+    let mk l = List.fold_left (fun a (x, sh) -> ZA.logor a (ZA.shift_left x sh)) ZA.zero l in
+    let v = match rint r 4 with
+      | 0 -> mk [ (b 0, 24); (b 1, 16); (b 2, 8); (b 3, 0) ]
+      | 1 -> mk [ (b 0, 16); (b 1, 24); (b 2, 0); (b 3, 8) ]
+      | 2 -> mk [ (b 0, 8); (b 1, 16); (b 2, 24); (b 3, 0) ]
+      | _ -> ZA.logand (ZA.add good ZA.one) (ZA.of_string "4294967295") in
+    ({ c with c_crc = zz v }, "crcnear")
   | _ -> ({ c with c_crc = zz good }, "crcok")
 
 let state_tag (c : control) = let s = iz c.c_state in if s >= 0 && s <= 6 then "" else "_ustate"
